@@ -191,10 +191,34 @@ pub fn judge(rep: &mut Reporter, m: &Manifest, reg: &Registry, p: &P26, h: &Hist
     nviol
 }
 
+/// The front end accepted the program but rustc rejects the generated code: if the error is about a generated
+/// loop / handoff buffer the loop scaffolding itself is broken (a compiler-side defect, reported); anything else
+/// is a defect of the generator's own user code.
+fn compile_failure(rep: &mut Reporter, m: &Manifest, p: &P26, msg: &str) {
+    let generated = ["`hoff_", "`singleton_", "`sg_"].iter().any(|n| msg.contains(n));
+    if generated {
+        rep.eval();
+        rep.violation(
+            "C26|compile|generated-loop-code-does-not-compile",
+            &format!("{}: accepted by the front end, but the generated loop code is rejected by rustc: {}", p.prog_id, &msg[..msg.len().min(300)]),
+            json!({"engine": "dx_shape", "prop": "C26", "gen_seed": m.seed, "gen_tier": m.tier, "program": p.prog_id, "dfir": p.text, "compile_only": true, "error": msg}),
+        );
+    } else {
+        rep.count("program_failed_rustc");
+    }
+}
+
 pub fn run(args: &Args, m: &Manifest, reg: &Registry) {
     let mut rep = Reporter::new("C26", args.seed);
     if let Some(case) = args.replay_case() {
         let id = case["program"].as_str().unwrap_or("");
+        if case.get("compile_only").and_then(|x| x.as_bool()).unwrap_or(false) {
+            if let (Some(p), Some(msg)) = (m.c26.iter().find(|p| p.prog_id == id), m.rustc_failed.get(id)) {
+                compile_failure(&mut rep, m, p, msg);
+            }
+            rep.finish("replay", false);
+            return;
+        }
         if let (Some(p), Ok(h)) = (m.c26.iter().find(|p| p.prog_id == id), vcommon::serde_json::from_value::<History>(case["history"].clone())) {
             judge(&mut rep, m, reg, p, &h);
         } else {
@@ -205,8 +229,8 @@ pub fn run(args: &Args, m: &Manifest, reg: &Registry) {
     }
     let n_hist = args.budget(200, 2000, 3);
     for (idx, p) in m.c26.iter().enumerate() {
-        if m.rustc_failed.contains_key(&p.prog_id) {
-            rep.count("program_failed_rustc");
+        if let Some(msg) = m.rustc_failed.get(&p.prog_id) {
+            compile_failure(&mut rep, m, p, msg);
             continue;
         }
         rep.count("programs");
